@@ -121,7 +121,32 @@ func (r *Runner) apply(in *inst, st *Step) error {
 	case "patch":
 		next := len(in.versions) + 1
 		patch := fmt.Sprintf(`[{"op": "add", "path": "/T/Fields/-", "value": {"Name": "f%d", "Kind": "Int"}}]`, next)
-		if err := in.n.DB.PatchSchema(ctx, patch, immutable.None[model.Lens](), st.K == 1); err != nil {
+		if st.F == 1 {
+			// the retry loop: a first attempt in a transaction that is discarded, the second one in a new transaction whose
+			// context is derived from the first attempt's context, committed
+			txn1, err := in.n.DB.NewTxn(ctx, false)
+			if err != nil {
+				return err
+			}
+			ctx1 := db.InitContext(ctx, txn1)
+			if err := in.n.DB.PatchSchema(ctx1, patch, immutable.None[model.Lens](), st.K == 1); err != nil {
+				txn1.Discard(ctx)
+				return err
+			}
+			txn1.Discard(ctx)
+			txn2, err := in.n.DB.NewTxn(ctx1, false)
+			if err != nil {
+				return err
+			}
+			ctx2 := db.InitContext(ctx1, txn2)
+			if err := in.n.DB.PatchSchema(ctx2, patch, immutable.None[model.Lens](), st.K == 1); err != nil {
+				txn2.Discard(ctx)
+				return err
+			}
+			if err := txn2.Commit(ctx); err != nil {
+				return err
+			}
+		} else if err := in.n.DB.PatchSchema(ctx, patch, immutable.None[model.Lens](), st.K == 1); err != nil {
 			return err
 		}
 		cols, err := in.n.DB.GetCollections(ctx, client.CollectionFetchOptions{IncludeInactive: immutable.Some(true)})
